@@ -32,6 +32,7 @@ class Ctx:
         self.params = spec.get("params", {})
         self.replay = replay
         self.counters = {}
+        self.sets = {}
         self.digests = set()
         self.samples = []
         self.sample_keys = set()
@@ -47,6 +48,9 @@ class Ctx:
     # -- bookkeeping -------------------------------------------------------------------------
     def count(self, key, n=1):
         self.counters[key] = self.counters.get(key, 0) + n
+
+    def setadd(self, name, item):
+        self.sets.setdefault(name, set()).add(item)
 
     def maxi(self, key, v):
         k = "max:" + key
@@ -95,7 +99,7 @@ class Ctx:
 
     def result(self):
         return {"prop": self.prop, "spec": self.spec, "counters": self.counters,
-                "digests": sorted(self.digests), "samples": self.samples, "violations": self.violations,
+                "digests": sorted(self.digests), "sets": {k: sorted(v) for k, v in self.sets.items()}, "samples": self.samples, "violations": self.violations,
                 "violations_total": self.violations_total, "errors": self.errors,
                 "evaluations": self.evaluations, "wall_s": round(time.time() - self.t0, 3)}
 
@@ -143,6 +147,22 @@ def exc_desc(exc):
     return f"{type(exc).__name__}({str(exc)[:120]}) at {where}"
 
 
+def canary_boundscheck():
+    """mode B is only meaningful if numba's bounds checking is really on in this process (numba's
+    on-disk cache ignores NUMBA_BOUNDSCHECK, hence one cache directory per mode)"""
+    import numpy as np
+    from numba import jit
+
+    @jit(nopython=True)
+    def _k(a, i):
+        return a[i]
+    try:
+        _k(np.zeros(4), 7)
+    except IndexError:
+        return True
+    return False
+
+
 def load_module(prop):
     return importlib.import_module("vf.monitors." + prop.lower())
 
@@ -180,6 +200,8 @@ def main(argv):
     faulthandler.enable(file=errlog)
     ctx = Ctx(spec)
     mod = load_module(spec["prop"])
+    if "B" in ctx.mode and not canary_boundscheck():
+        ctx.error("mode B: the bounds-check canary kernel did not raise IndexError")
     if hasattr(mod, "setup"):
         mod.setup(ctx)
     if hasattr(mod, "run_shard"):
